@@ -30,7 +30,7 @@ SHAPES = {
 }
 GENERIC = ['L', 'N', 'D', 'LL', 'LI', 'DS', 'LF1']
 # rarely used argument forms, tried on EVERY non-mutator: lists in second / third position, lists of strings, mixed lists
-ANY_POSITION = ['W', 'M', 'SW', 'WS', 'SWW', 'lW', 'WW', 'SM', 'dW', 'MK', 'SWZ', 'Dd', 'dD', 'DdD', 'DN']
+ANY_POSITION = ['W', 'M', 'SW', 'WS', 'SWW', 'lW', 'WW', 'SM', 'dW', 'MK', 'SWZ', 'de', 'ed', 'ded', 'dn']
 
 
 def _args(shape, a, b, c, n, flag):
@@ -52,6 +52,8 @@ def _args(shape, a, b, c, n, flag):
             out.append([[a], [b, c]])
         elif k == 'D':
             out.append({'p': a, 'q': [b]})
+        elif k == 'e':
+            out.append({'p': 4, 'q': [2], 'r': 5})          # a second concrete dict sharing keys with 'd'
         elif k == 'W':
             out.append([',', ';', ', ', 'abc', ''])          # strings of different lengths, not ordered by anything
         elif k == 'M':
